@@ -2828,9 +2828,14 @@ class TrackFragmentRunBox(FullBox):
 @fourcc('tenc')
 class TrackEncryptionBox(FullBox):
     OBJECT_FIELDS = {
+        "constant_iv": HexBinary,
         "default_kid": HexBinary,
     }
     OBJECT_FIELDS.update(FullBox.OBJECT_FIELDS)
+
+    DEFAULT_VALUES = {
+        "constant_iv": None,
+    }
 
     @classmethod
     def parse(clz, src, parent, **kwargs):
@@ -2839,6 +2844,11 @@ class TrackEncryptionBox(FullBox):
         r.read('3I', "is_encrypted")
         r.read('B', "iv_size")
         r.read(16, "default_kid")
+        rv["constant_iv"] = None
+        if (rv["is_encrypted"] & 0xFF) == 1 and rv["iv_size"] == 0:
+            # a constant IV is used for all samples
+            constant_iv_size = r.get('B', "constant_iv_size")
+            r.read(constant_iv_size, "constant_iv")
         return rv
 
     def encode_box_fields(self, dest):
@@ -2846,6 +2856,9 @@ class TrackEncryptionBox(FullBox):
         w.write('3I', "is_encrypted")
         w.write('B', "iv_size")
         w.write(16, "default_kid")
+        if self.constant_iv is not None:
+            w.write('B', "constant_iv_size", value=len(self.constant_iv.data))
+            w.write(None, "constant_iv")
 
 
 @fourcc('pssh')
